@@ -1,6 +1,6 @@
 """Shared plumbing for ./check: building the three executables, running case files through them
 in parallel, parsing result lines."""
-import os, subprocess, sys, time, json, hashlib, re, shutil
+import os, subprocess, sys, time, json, hashlib, re, shutil, signal
 from concurrent.futures import ThreadPoolExecutor
 
 ROOT = os.path.dirname(os.path.dirname(os.path.abspath(__file__)))
@@ -54,11 +54,19 @@ def _run_shard(args):
     kind, path, out, env, timeout = args
     exe = HARNESS_EXE if kind == "impl" else RUNNER_EXE
     e = dict(ENV); e.update(env)
+    if timeout > 600: e.setdefault("HARNESS_CASE_TIMEOUT_S", str(timeout))
     with open(out, "wb") as f:
+        # own process group: on a timeout the front end AND its workers are killed (no orphaned spinning workers)
+        p = subprocess.Popen([exe, path], stdout=f, stderr=subprocess.DEVNULL, env=e, start_new_session=True)
         try:
-            subprocess.run([exe, path], stdout=f, stderr=subprocess.DEVNULL, env=e, timeout=timeout)
+            p.wait(timeout=timeout)
         except subprocess.TimeoutExpired:
             pass
+        finally:
+            try: os.killpg(p.pid, signal.SIGKILL)
+            except OSError: pass
+            try: p.wait(timeout=10)
+            except Exception: pass
     return out
 
 def run_cases(kind, lines, tag, env=None, timeout=600):
@@ -69,7 +77,7 @@ def run_cases(kind, lines, tag, env=None, timeout=600):
     results = {}
     pending = list(lines)
     rounds = 0
-    while pending and rounds < 8:
+    while pending and rounds < 3:
         rounds += 1
         n = max(1, min(NPROC, len(pending) // 50 + 1))
         shards = [pending[i::n] for i in range(n)]
